@@ -1,90 +1,42 @@
-/- C16: preservation of the invariants of part 4 -/
-import YaclibModel.Proofs.EventQ
+/- C16: the invariants of part 4 hold in every reachable state of a workload that respects the token discipline -/
+import YaclibModel.Proofs.EventQStep2
+import YaclibModel.Proofs.EventQStep3
 
 namespace Yaclib.Event
 variable {s s' : State} {l : Label} {w : Workload}
 
-attribute [local grind =] Pc.setter Pc.releasing Pc.owner Pc.bphase JSt.inList List.nodup_cons Pc.runList
-attribute [local grind →] Pc.bphase_owner
-
-/-- a decrement that finds a positive count happens before the count has reached zero -/
-theorem InvT.not_zeroed (ht : InvT s) (h : 1 ≤ s.count) : s.zeroed = false := by
-  cases hz : s.zeroed with
-  | false => rfl
-  | true => have := ht.t_z hz; omega
-
-set_option maxHeartbeats 4000000 in
 theorem invQ_step (hz : InvZ s) (ht : InvT s) (hi : InvJ s) (hq : InvQ s) (hs : Step s l s') : InvQ s' := by
-  have hzp := hz.z_pc
-  have hznz := hz.z_nz
-  have hone := ht.t_one
-  have hnz := ht.t_nz
-  have hxh := ht.t_xh
-  have hjown := hi.j_own
-  have hjout := hi.j_out
-  have hlrun := hi.l_run
-  have hldec := hi.l_dec
-  have hlhead := hi.l_head
-  have hjres := hi.j_res
-  have hjrep := hi.j_rep
-  have hjto := hi.j_to
-  have hjdec := hi.j_dec
-  have hrn := hi.r_nrel
-  have hrb := hi.r_block
-  have hnotz : 1 ≤ s.count → s.zeroed = false := ht.not_zeroed
   cases hs with
-  | tDone t k rest h hp =>
-      have hok := ht.t_ok t
-      simp only [thrOk, okProg, Bool.and_eq_true, decide_eq_true_eq, h, hp] at hok
-      simp only [doSub]
-      split <;> (constructor <;> q_solve hq)
-  | tInsSub t k h =>
-      have hok := ht.t_ok t
-      simp only [thrOk, okProg, Bool.and_eq_true, decide_eq_true_eq, h] at hok
-      simp only [doSub]
-      split <;> (constructor <;> q_solve hq)
-  | tCbSub t f rest h hp =>
-      simp only [doCbSub, doSub]
-      split <;> (constructor <;> q_solve hq)
-  | tRunUnlock t j rest h =>
-      have hl := hi.l_run t _ _ h
-      have hk := hi.l_runk t j rest h
-      have hz := hq.q_xh t (by simp [h, Pc.setter])
-      have hr := hq.q_locked t j rest h
-      simp only [doRunUnlock, touch, runNext, goto, finish, setT]
-      repeat' split
-      all_goals (constructor <;> q_solve hq)
-  | tRunDec t j rest h =>
-      have hl := hi.l_dec t j rest h
-      have hz := hq.q_xh t (by simp [h, Pc.setter])
-      have hr := hq.q_lockedD t j rest h
-      simp only [doRunDec, decJob, touch, runNext, goto, finish, setT]
-      repeat' split
-      all_goals (constructor <;> q_solve hq)
-  | tRunRel t j rest h hk =>
-      have hl := hi.l_run t _ _ h
-      have hz := hq.q_xh t (by simp [h, Pc.setter])
-      simp only [doRunRel, touch, runNext, goto, finish, setT]
-      repeat' split
-      all_goals (constructor <;> q_solve hq)
-  | tXchgHead t h =>
-      have hx := ht.t_xh t h
-      have hz := hq.q_xh t (by simp [h, Pc.setter])
-      simp only [doXchgHead, runNext, goto, finish, setT]
-      repeat' split
-      all_goals (constructor <;> q_solve hq)
-  | tRep t j b h =>
-      have hown := hi.j_own t j (by simp [h, Pc.owner])
-      have hr := hi.j_rep t j b h
-      have hb := hq.q_repb t j b h
-      have hrb := hi.r_block j
-      have hrn := hi.r_nrel j
-      simp only [doRep, finish, setT]
-      cases b <;> (constructor <;> q_solve hq)
-  | _ =>
-      all_goals (ev_unfold; repeat' split)
-      all_goals constructor
-      all_goals q_solve hq
+  | tAdd t k rest h hp => exact invQ_tAdd hz ht hi hq t k rest h hp
+  | tDone t k rest h hp => exact invQ_tDone hz ht hi hq t k rest h hp
+  | tInsAdd t consume fs rest h hp hne => exact invQ_tInsAdd hz ht hi hq t consume fs rest h hp
+  | tInsLoad t f rest c wc consume x h hx => exact invQ_tInsLoad hz ht hi hq t f rest c wc consume x h
+  | tInsCasOk t f rest c wc consume h hw => exact invQ_tInsCasOk hz ht hi hq t f rest c wc consume h
+  | tInsCasFail t f rest c wc consume h hw => exact invQ_tInsCasFail hz ht hi hq t f rest c wc consume h
+  | tInsSub t k h => exact invQ_tInsSub hz ht hi hq t k h
+  | tFulfil t f rest h hp => exact invQ_tFulfil hz ht hi hq t f rest h hp
+  | tCbSub t f rest h hp => exact invQ_tCbSub hz ht hi hq t f rest h hp
+  | tReadyLoad t f rest h hp => exact invQ_tReadyLoad hz ht hi hq t f rest _ _ h hp
+  | tReady t f b c h => exact invQ_tReady hz ht hi hq t f b c h
+  | tXchgHead t h => exact invQ_tXchgHead hz ht hi hq t h
+  | tRunLock t j rest h hk hm => exact invQ_tRunLock hz ht hi hq t j rest h hk
+  | tRunUnlock t j rest h => exact invQ_tRunUnlock hz ht hi hq t j rest h
+  | tRunDec t j rest h => exact invQ_tRunDec hz ht hi hq t j rest h
+  | tRunRel t j rest h hk => exact invQ_tRunRel hz ht hi hq t j rest h hk
+  | tStart t op rest k x h hp hk hx => exact invQ_tStart hz ht hi hq t k (opChecks op) x h
+  | tTryLoad t j x h hx => exact invQ_tryWith hz ht hi hq t j x (Or.inl h)
+  | tCasOk t j l h hh => exact invQ_tCasOk hz ht hi hq t j l h hh
+  | tCasFail t j x h hh => exact invQ_tryWith hz ht hi hq t j _ (Or.inr ⟨x, h⟩)
+  | tCasSpur t j x x' h hx => exact invQ_tryWith hz ht hi hq t j x' (Or.inr ⟨x, h⟩)
+  | tResume t j h => exact invQ_tResume hz ht hi hq t j h
+  | tBLock t j h hm =>
+      exact invQ_tBLock hz ht hi hq t j false (by rcases h with h | h; exact Or.inl h; exact Or.inr (Or.inl h)) (fun h => by cases h)
+  | tBSleep t j h => exact invQ_tBSleep hz ht hi hq t j h
+  | tBTimeout t j h hk => exact invQ_tBTimeout hz ht hi hq t j h
+  | tBLockT t j h hm => exact invQ_tBLock hz ht hi hq t j true (Or.inr (Or.inr h)) (fun _ => hi.j_to t j h)
+  | tBUnlockRet t j b h => exact invQ_tBUnlockRet hz ht hi hq t j b h
+  | tBDec t j b h => exact invQ_tBDec hz ht hi hq t j b h
+  | tRep t j b h => exact invQ_tRep hz ht hi hq t j b h
 
 theorem invQ_reachable (hok : w.ok) (h : Reachable w s) : InvQ s := by
   induction h with
